@@ -626,3 +626,553 @@ impl Check for C07 {
         Box::pin(exec_c07(script))
     }
 }
+
+// ---------------------------------------------------------------------------
+// C06: 3-node cluster - acknowledged config writes are never lost; nodes converge
+
+pub struct C06;
+
+#[derive(Serialize, Deserialize, Clone, Debug, PartialEq)]
+#[serde(tag = "op")]
+pub enum XStep {
+    /// publish unique content to key `k` through node `node`; the script goes on after `gap_ms`
+    Pub { node: u64, k: u8, gap_ms: u64 },
+    Del { node: u64, k: u8, gap_ms: u64 },
+    Kill { node: u64 },
+    Start { node: u64 },
+    /// cut a node off in both directions
+    Isolate { node: u64 },
+    /// cut off whoever is leader now (as seen by the majority)
+    IsolateLeader,
+    KillLeader,
+    OneWay { from: u64, to: u64 },
+    Heal,
+    /// 0 calm, 1 lossy, 2 duplicating, 3 slow
+    Net { mode: u8 },
+    Advance { ms: u64 },
+}
+
+#[derive(Clone, Debug)]
+pub struct OpRec {
+    pub step: usize,
+    pub key: u8,
+    /// None = remove
+    pub content: Option<String>,
+    pub node: u64,
+    pub invoke: u64,
+    pub ret: Option<u64>,
+    /// Some(true) success, Some(false) error, None = no answer before the client time-out
+    pub ok: Option<bool>,
+    pub err: String,
+}
+
+pub fn c06_key(k: u8) -> (u8, u8, u8) {
+    // keys 0,1: publish-only; keys 2,3: publish and remove
+    (0, 0, k % 4)
+}
+
+fn net_mode(mode: u8) -> NetCfg {
+    let mut c = NetCfg::default();
+    match mode {
+        1 => {
+            c.p_drop_req = 0.05;
+            c.p_drop_resp = 0.05;
+        }
+        2 => {
+            c.p_dup = 0.15;
+        }
+        3 => {
+            c.p_slow = 0.2;
+            c.slow_max_ms = 2500;
+        }
+        _ => {}
+    }
+    c
+}
+
+pub async fn cluster_up(root: &str, cfg: &NCfg, id: &str) -> VResult<()> {
+    let n1 = start_node(root, 1, true, None, &cfg.node).await.map_err(|e| Violation::new("harness.start", e.to_string()))?;
+    vensure!(wait_leader(&n1, 20_000).await.is_some(), &format!("{}.setup_no_leader", id), "node 1 did not become leader");
+    advance(6_000).await;
+    for nid in 2..=cfg.nodes.max(1) {
+        start_node(root, nid, false, Some(1), &cfg.node).await.map_err(|e| Violation::new("harness.start", e.to_string()))?;
+        advance(4_000).await;
+    }
+    // the product's own join sequence must have produced the full membership everywhere
+    let want: std::collections::BTreeSet<u64> = (1..=cfg.nodes.max(1)).collect();
+    let deadline = 40;
+    for _ in 0..deadline {
+        let mut ok = true;
+        for n in live_nodes() {
+            let m = metrics(&n);
+            let have: std::collections::BTreeSet<u64> = m.membership_config.members.iter().cloned().collect();
+            if have != want || m.membership_config.members_after_consensus.is_some() || m.current_leader.is_none() {
+                ok = false;
+            }
+        }
+        if ok {
+            // default admin user / namespace marker are written by the leader some seconds after start
+            advance(12_000).await;
+            return Ok(());
+        }
+        advance(1_000).await;
+    }
+    let states: Vec<String> = live_nodes().iter().map(|n| { let m = metrics(n); format!("n{}: {:?} leader={:?} members={:?}", n.id, m.state, m.current_leader, m.membership_config.members) }).collect();
+    vfail!(&format!("{}.setup_membership", id), "fault-free start-up with the product's own join sequence did not reach membership {:?} on all nodes within 40 simulated s: {}", want, states.join("; "))
+}
+
+fn majority_leader() -> Option<u64> {
+    let mut votes: BTreeMap<u64, u32> = BTreeMap::new();
+    for n in live_nodes() {
+        if let Some(l) = metrics(&n).current_leader {
+            *votes.entry(l).or_insert(0) += 1;
+        }
+    }
+    votes.into_iter().max_by_key(|(_, c)| *c).map(|(l, _)| l)
+}
+
+pub async fn exec_c06(script: Value) -> ExecResult {
+    use std::cell::RefCell;
+    use std::rc::Rc as LRc;
+    let id = "C06";
+    let seed = script["seed"].as_u64().unwrap_or(1);
+    let cfg: NCfg = serde_json::from_value(script["cfg"].clone()).unwrap_or_default();
+    let steps: Vec<XStep> = match serde_json::from_value(script["steps"].clone()) {
+        Ok(s) => s,
+        Err(e) => return ExecResult { violation: Some(Violation::new("harness.script", e.to_string())), info: RunInfo::default() },
+    };
+    tokio::fs::set_cfg(disk_cfg(&cfg));
+    tokio::fs::with_disk(|d| {
+        d.journal_on = false;
+        d.log_ops = false;
+    });
+    net_reset(seed, cfg.net.clone());
+    let root = run_root(seed);
+    let recs: LRc<RefCell<Vec<OpRec>>> = LRc::new(RefCell::new(vec![]));
+    let uniq = LRc::new(RefCell::new(0u64));
+    let mut digest = 0u64;
+    let all: Vec<u64> = (1..=cfg.nodes.max(1)).collect();
+    let mut down: std::collections::BTreeSet<u64> = Default::default();
+    let mut isolated: std::collections::BTreeSet<u64> = Default::default();
+    let client_timeout = 20_000u64;
+    let tainted = LRc::new(RefCell::new(0u64));
+    let direct = LRc::new(RefCell::new(Vec::<String>::new()));
+    let r: VResult<()> = async {
+        cluster_up(&root, &cfg, id).await?;
+        // the leader and term under which the other members were admitted
+        let formation = node(1).map(|n| metrics(&n)).map(|m| (m.current_leader.unwrap_or(0), m.current_term)).unwrap_or((0, 0));
+        let mut handles = vec![];
+        for (i, st) in steps.iter().enumerate() {
+            sim::event(&format!("step {} {}", i, serde_json::to_string(st).unwrap_or_default()));
+            match st {
+                XStep::Pub { node: nid, k, gap_ms } | XStep::Del { node: nid, k, gap_ms } => {
+                    let is_pub = matches!(st, XStep::Pub { .. });
+                    let target = match node(*nid) {
+                        Some(t) => t,
+                        None => {
+                            // the client's node is down: connection refused, nothing sent
+                            advance(*gap_ms).await;
+                            continue;
+                        }
+                    };
+                    let content = if is_pub {
+                        let mut u = uniq.borrow_mut();
+                        *u += 1;
+                        Some(format!("c{}-s{}", *u, i))
+                    } else {
+                        None
+                    };
+                    sim::event(&format!("invoke {} n{} k{} {:?}", if is_pub { "pub" } else { "del" }, nid, k, content));
+                    let idx = {
+                        let mut r = recs.borrow_mut();
+                        r.push(OpRec { step: i, key: *k % 4, content: content.clone(), node: *nid, invoke: sim::ev_seq(), ret: None, ok: None, err: String::new() });
+                        r.len() - 1
+                    };
+                    let recs2 = recs.clone();
+                    let (t, g, d) = c06_key(*k);
+                    let tainted2 = tainted.clone();
+                    let direct2 = direct.clone();
+                    let via = *nid;
+                    let all2 = all.clone();
+                    let h = actix_rt::spawn(async move {
+                        let cut_at_invoke = is_cut_off(via, &all2);
+                        let res = if let Some(c) = content {
+                            let req = rnacos::raft::cluster::model::SetConfigReq::new(cfg_key(t, g, d), Arc::new(c));
+                            within(client_timeout, target.app.config_route.set_config(req)).await
+                        } else {
+                            within(client_timeout, target.app.config_route.del_config(rnacos::raft::cluster::model::DelConfigReq::new(cfg_key(t, g, d)))).await
+                        };
+                        let mut r = recs2.borrow_mut();
+                        let rec = &mut r[idx];
+                        match res {
+                            None => {
+                                rec.ok = None;
+                            }
+                            Some(Ok(())) => {
+                                rec.ok = Some(true);
+                                // known root cause (see known_findings.jsonl): the leader that admitted the other
+                                // members keeps them as non-voters for the rest of its term and commits alone
+                                if let Some(l) = node(formation.0) {
+                                    let m = metrics(&l);
+                                    if m.state == async_raft_ext::State::Leader && m.current_term == formation.1 {
+                                        *tainted2.borrow_mut() += 1;
+                                    }
+                                }
+                                if cut_at_invoke && is_cut_off(via, &all2) {
+                                    let m = node(via).map(|n| metrics(&n));
+                                    direct2.borrow_mut().push(format!("publish/remove through node {} was answered with success while that node was cut off from both other nodes for the whole call (node state {:?}, term {:?}; formation leader/term {:?})", via, m.as_ref().map(|m| m.state), m.as_ref().map(|m| m.current_term), formation));
+                                }
+                            }
+                            Some(Err(e)) => {
+                                rec.ok = Some(false);
+                                rec.err = e.to_string();
+                            }
+                        }
+                        sim::event(&format!("return op{} {:?}", idx, rec.ok));
+                        rec.ret = Some(sim::ev_seq());
+                    });
+                    handles.push(h);
+                    advance(*gap_ms).await;
+                }
+                XStep::Kill { node: nid } => {
+                    // at most a minority is down or cut off at once (the statement's precondition)
+                    if node(*nid).is_some() && down.len() + isolated.len() < (all.len() - 1) / 2 + 0 && !down.contains(nid) && !isolated.contains(nid) {
+                        kill_node(*nid).await;
+                        down.insert(*nid);
+                        sim::count("fault.kill", 1);
+                    }
+                }
+                XStep::KillLeader => {
+                    if let Some(l) = majority_leader() {
+                        if down.len() + isolated.len() < (all.len() - 1) / 2 && node(l).is_some() && !isolated.contains(&l) {
+                            kill_node(l).await;
+                            down.insert(l);
+                            sim::count("fault.kill_leader", 1);
+                        }
+                    }
+                }
+                XStep::Start { node: nid } => {
+                    if down.contains(nid) {
+                        start_node(&root, *nid, *nid == 1, if *nid == 1 { None } else { Some(1) }, &cfg.node).await.map_err(|e| Violation::new(&format!("{}.restart_failed", id), format!("node {} does not start: {}", nid, e)))?;
+                        down.remove(nid);
+                        sim::count("fault.restart", 1);
+                    }
+                }
+                XStep::Isolate { node: nid } => {
+                    if down.len() + isolated.len() < (all.len() - 1) / 2 && !down.contains(nid) && !isolated.contains(nid) {
+                        isolate(*nid, &all);
+                        isolated.insert(*nid);
+                        sim::count("fault.isolate", 1);
+                    }
+                }
+                XStep::IsolateLeader => {
+                    if let Some(l) = majority_leader() {
+                        if down.len() + isolated.len() < (all.len() - 1) / 2 && !down.contains(&l) && !isolated.contains(&l) {
+                            isolate(l, &all);
+                            isolated.insert(l);
+                            sim::count("fault.isolate_leader", 1);
+                        }
+                    }
+                }
+                XStep::OneWay { from, to } => {
+                    if down.len() + isolated.len() < (all.len() - 1) / 2 && from != to {
+                        partition(*from, *to, false);
+                        // a one-way cut can cost a node its leader: count the cut-off side
+                        isolated.insert(*to);
+                        sim::count("fault.one_way", 1);
+                    }
+                }
+                XStep::Heal => {
+                    heal_all();
+                    isolated.clear();
+                }
+                XStep::Net { mode } => {
+                    net_set_cfg(net_mode(*mode));
+                    sim::count(&format!("fault.net_mode_{}", mode), 1);
+                }
+                XStep::Advance { ms } => advance(*ms).await,
+            }
+        }
+        // faults stop: heal, calm network, restart what is down, let in-flight client calls end
+        heal_all();
+        net_set_cfg(net_mode(0));
+        for nid in down.clone() {
+            start_node(&root, nid, nid == 1, if nid == 1 { None } else { Some(1) }, &cfg.node).await.map_err(|e| Violation::new(&format!("{}.restart_failed", id), format!("node {} does not start: {}", nid, e)))?;
+        }
+        sim::event("faults stop");
+        for h in handles {
+            let _ = h.await;
+        }
+        let recs = recs.borrow().clone();
+        // (4) bounded liveness: a probe write succeeds and is readable everywhere within 30 simulated s
+        let probe_deadline = tokio::time::Instant::now() + std::time::Duration::from_secs(60);
+        let mut probe_ok = false;
+        let mut probe_content = String::new();
+        let mut attempt = 0;
+        while tokio::time::Instant::now() < probe_deadline {
+            attempt += 1;
+            let n = live_nodes();
+            let via = &n[attempt % n.len()];
+            probe_content = format!("probe{}", attempt);
+            let req = rnacos::raft::cluster::model::SetConfigReq::new(cfg_key(1, 1, 4), Arc::new(probe_content.clone()));
+            if let Some(Ok(())) = within(10_000, via.app.config_route.set_config(req)).await {
+                probe_ok = true;
+                break;
+            }
+            advance(2_000).await;
+        }
+        vensure!(probe_ok, &format!("{}.liveness", id), "60 simulated s after all faults stopped (all nodes up, network healed) no node accepts a config write");
+        // (3) convergence within 60 s
+        let mut skipped_apply: Option<String> = None;
+        let mut last_diff = String::new();
+        let mut converged = false;
+        let mut finals: Vec<(u64, Obs)> = vec![];
+        for _ in 0..60 {
+            finals.clear();
+            for n in live_nodes() {
+                let o = observe(&n, "fin").await.map_err(|e| Violation::new(&format!("{}.observe_failed", id), format!("node {}: {}", n.id, e)))?;
+                finals.push((n.id, o));
+            }
+            let first = &finals[0].1;
+            let mut same = true;
+            for (nid, o) in &finals[1..] {
+                if o.cfg != first.cfg || o.hist != first.hist {
+                    same = false;
+                    let mut a = first.clone();
+                    let mut b = o.clone();
+                    a.records.clear();
+                    b.records.clear();
+                    a.users.clear();
+                    b.users.clear();
+                    last_diff = format!("node {} vs node {}: {}", finals[0].0, nid, obs_diff(&a, &b));
+                }
+            }
+            let probe_seen = finals.iter().all(|(_, o)| o.cfg.get(&key_str(1, 1, 4)).cloned().flatten().map(|v| v.0 == probe_content).unwrap_or(false));
+            if same && probe_seen {
+                converged = true;
+                break;
+            }
+            advance(1_000).await;
+        }
+        if !converged {
+            let states: Vec<String> = live_nodes().iter().map(|n| { let m = metrics(n); format!("n{}: {:?} term={} leader={:?} last_log={} applied={} members={:?}", n.id, m.state, m.current_term, m.current_leader, m.last_log_index, m.last_applied, m.membership_config.members) }).collect();
+            // root-cause signature of a recorded defect of async-raft-ext 0.6.3 (see known_findings.jsonl):
+            // every node has the same log and reports all of it applied, yet the state machines differ -
+            // an entry that was not yet applied when the leader changed is skipped (the new leader's initial
+            // blank entry moves last_applied past it; followers drop it from their apply cache)
+            let mut full = vec![];
+            let mut all_applied = true;
+            for n in live_nodes() {
+                let m = metrics(&n);
+                if m.last_applied != m.last_log_index {
+                    all_applied = false;
+                }
+                if let Ok(es) = n.app.raft_store.get_log_entries(1, m.last_log_index + 1).await {
+                    full.push(es.iter().map(|e| format!("{}:{}:{}", e.index, e.term, crate::rig_l::payload_json(&e.payload))).collect::<Vec<_>>());
+                }
+            }
+            // (logs compared on their common prefix: a node may be one heartbeat behind)
+            let minlen = full.iter().map(|f| f.len()).min().unwrap_or(0);
+            let same_logs = full.len() >= 2 && minlen > 0 && full.windows(2).all(|w| w[0][..minlen] == w[1][..minlen]);
+            // second signature: a follower still holds entries of an older term at indexes where the
+            // leader has entries of a newer term (the conflict answer names the follower's own last index,
+            // the leader answers with its own entry at that index, and the exchange repeats for ever)
+            let mut conflict_sig: Option<String> = None;
+            if let Some(leader_id) = majority_leader() {
+                if let Some(ln) = node(leader_id) {
+                    let lm = metrics(&ln);
+                    if let Ok(les) = ln.app.raft_store.get_log_entries(1, lm.last_log_index + 1).await {
+                        let lterm: BTreeMap<u64, u64> = les.iter().map(|e| (e.index, e.term)).collect();
+                        for n in live_nodes() {
+                            if n.id == leader_id {
+                                continue;
+                            }
+                            let m = metrics(&n);
+                            if let Ok(es) = n.app.raft_store.get_log_entries(1, m.last_log_index + 1).await {
+                                if let Some(e) = es.iter().find(|e| lterm.get(&e.index).map(|t| *t != e.term).unwrap_or(false)) {
+                                    conflict_sig = Some(format!("60 simulated s after all faults stopped node {} still holds entry {} of term {} where leader {} has an entry of term {} (its log ends at {}, the leader's at {}): the conflicting suffix is never truncated", n.id, e.index, e.term, leader_id, lterm.get(&e.index).unwrap(), m.last_log_index, lm.last_log_index));
+                                }
+                            }
+                        }
+                    }
+                }
+            }
+            if same_logs && all_applied {
+                skipped_apply = Some(format!("all nodes hold the same {} log entries and report them applied, but serve different data: {}", full[0].len(), last_diff));
+            }
+            let mut logs = vec![];
+            for n in live_nodes() {
+                let last = metrics(&n).last_log_index;
+                if let Ok(es) = n.app.raft_store.get_log_entries(last.saturating_sub(6).max(1), last + 1).await {
+                    logs.push(format!("n{} log tail: {}", n.id, es.iter().map(|e| format!("{}:t{}:{}", e.index, e.term, serde_json::to_string(&e.payload).unwrap_or_default().chars().take(46).collect::<String>())).collect::<Vec<_>>().join(" | ")));
+                }
+            }
+            if let Some(sk) = &skipped_apply {
+                vfail!(&format!("{}.entry_skipped_at_leader_change", id), "{} [[{}]]", sk, states.join("; "));
+            }
+            if let Some(c) = &conflict_sig {
+                vfail!(&format!("{}.conflicting_suffix_never_repaired", id), "{} [[{}]]", c, states.join("; "));
+            }
+            vfail!(&format!("{}.diverged", id), "60 simulated s after all faults stopped the nodes still serve different config data: {} [[{}]] [[{}]]", last_diff, states.join("; "), logs.join(" ;; "));
+        }
+        let fin = &finals[0].1;
+        digest = obs_digest(fin);
+        // (1) never lost, (2) order - on publish-only keys via the change history
+        for k in 0..4u8 {
+            let (t, g, d) = c06_key(k);
+            let ks = key_str(t, g, d);
+            let ops: Vec<&OpRec> = recs.iter().filter(|r| r.key == k).collect();
+            let hist: Vec<String> = fin.hist.get(&ks).cloned().unwrap_or_default().into_iter().map(|h| h.1).collect(); // newest first
+            let cur = fin.cfg.get(&ks).cloned().flatten().map(|v| v.0);
+            if k < 2 {
+                for o in &ops {
+                    if o.ok == Some(true) {
+                        let c = o.content.clone().unwrap_or_default();
+                        vensure!(hist.contains(&c), &format!("{}.acked_write_lost", id), "publish of {} to key {} through node {} (step {}) was answered with success but the content is in no node's committed history of that key (history, newest first: {:?}; current value {:?})", c, ks, o.node, o.step, hist, cur);
+                    }
+                }
+                // real-time order of acknowledged writes
+                for a in &ops {
+                    for b in &ops {
+                        if a.ok == Some(true) && b.ok == Some(true) && a.ret.is_some() && a.ret.unwrap() < b.invoke {
+                            let pa = hist.iter().position(|h| Some(h) == a.content.as_ref());
+                            let pb = hist.iter().position(|h| Some(h) == b.content.as_ref());
+                            if let (Some(pa), Some(pb)) = (pa, pb) {
+                                vensure!(pa > pb, &format!("{}.order", id), "key {}: publish {} returned before publish {} was invoked, but the committed history has them in the opposite order: {:?}", ks, a.content.clone().unwrap(), b.content.clone().unwrap(), hist);
+                            }
+                        }
+                    }
+                }
+            }
+            // final value: the content (or absence) of an operation that is not overwritten in real time by a later acknowledged one
+            let mut allowed: Vec<Option<String>> = vec![];
+            for o in &ops {
+                if o.ok == Some(false) && o.err.contains("unknown the raft leader") {
+                    continue; // refused before anything was sent
+                }
+                let ret = if o.ok == Some(true) { o.ret.unwrap_or(u64::MAX) } else { u64::MAX };
+                let overwritten = ops.iter().any(|p| p.ok == Some(true) && p.invoke > ret);
+                if !overwritten {
+                    allowed.push(o.content.clone());
+                }
+            }
+            if !ops.iter().any(|o| o.ok == Some(true)) {
+                allowed.push(None);
+            }
+            vensure!(allowed.contains(&cur), &format!("{}.final_value", id), "key {} finally holds {:?}, which is not the value of any operation that could be the last one (candidates {:?}; operations: {:?})", ks, cur, allowed, ops.iter().map(|o| (o.step, o.content.clone(), o.ok, o.invoke, o.ret)).collect::<Vec<_>>());
+        }
+        let n_ok = recs.iter().filter(|r| r.ok == Some(true)).count();
+        let n_err = recs.iter().filter(|r| r.ok == Some(false)).count();
+        let n_to = recs.iter().filter(|r| r.ok.is_none()).count();
+        sim::count("ops.success", n_ok as u64);
+        sim::count("ops.error", n_err as u64);
+        sim::count("ops.no_answer", n_to as u64);
+        Ok(())
+    }
+    .await;
+    let nrec = recs.borrow().len();
+    let mut findings = vec![];
+    let mut violation = r.err();
+    let tainted_n = *tainted.borrow();
+    sim::count("probe.acks_by_formation_term_leader", tainted_n);
+    // a success answered by a node that was cut off from everybody: direct evidence of a commit without quorum
+    let direct_v = direct.borrow().clone();
+    if !direct_v.is_empty() {
+        sim::count("probe.ack_while_cut_off", direct_v.len() as u64);
+    }
+    if violation.as_ref().map(|v| v.clause == "C06.conflicting_suffix_never_repaired").unwrap_or(false) {
+        sim::count("probe.conflicting_suffix_never_repaired", 1);
+        let v = violation.take().unwrap();
+        findings.push(v);
+    }
+    if violation.as_ref().map(|v| v.clause == "C06.entry_skipped_at_leader_change").unwrap_or(false) {
+        sim::count("probe.entry_skipped_at_leader_change", 1);
+        let v = violation.take().unwrap();
+        findings.push(v);
+    }
+    if tainted_n > 0 {
+        // consequences of the recorded root cause are reported under its clause, everything else stays a violation
+        let consequence = violation.as_ref().map(|v| matches!(v.clause.as_str(), "C06.diverged" | "C06.acked_write_lost" | "C06.final_value" | "C06.order")).unwrap_or(false);
+        if consequence || !direct_v.is_empty() {
+            let v = violation.take();
+            findings.push(Violation::new("C06.formation_leader_commits_without_quorum", format!("the leader that admitted nodes 2 and 3 (still in the term of the cluster formation) acknowledged {} write(s) on its own; {}{}", tainted_n, direct_v.first().cloned().unwrap_or_default(), v.map(|v| format!(" consequence: {}: {}", v.clause, v.msg)).unwrap_or_default())));
+        }
+    } else if let (None, Some(d)) = (&violation, direct_v.first()) {
+        violation = Some(Violation::new("C06.commit_without_quorum", d.clone()));
+    }
+    let info = RunInfo { digest, nontrivial: nrec >= 5, info: json!({"ops": nrec, "tainted": tainted_n}), findings };
+    for n in live_nodes() {
+        kill_node(n.id).await;
+    }
+    ExecResult { violation, info }
+}
+
+/// true when `id` can currently neither send to nor receive from any other node
+pub fn is_cut_off(id: u64, all: &[u64]) -> bool {
+    NET.with(|n| {
+        let n = n.borrow();
+        all.iter().filter(|o| **o != id).all(|o| n.blocked.contains(&(id, *o)) && n.blocked.contains(&(*o, id)))
+    })
+}
+
+impl Check for C06 {
+    fn id(&self) -> &'static str {
+        "C06"
+    }
+    fn generate(&self, seed: u64, _tier: Tier) -> Value {
+        let mut rng = Rng::derive(seed, "C06.gen", 0);
+        let mut cfg = NCfg::default();
+        cfg.nodes = 3;
+        // no compaction during these runs: a follower that needs a snapshot while the leader's snapshot
+        // policy is not met makes async-raft spin without yielding to time (covered by C08)
+        cfg.node.snapshot_log_size = 10_000;
+        if rng.chance(0.3) {
+            cfg.disk_p_delay = 0.2;
+            cfg.disk_max_delay_us = *rng.pick(&[200u64, 5_000]);
+        }
+        let faulty = rng.chance(0.8);
+        let n = rng.range(10, 60);
+        let mut steps = vec![];
+        if rng.chance(0.7) {
+            // an early leader change: afterwards the leader tracks the other members as voters
+            steps.push(XStep::IsolateLeader);
+            steps.push(XStep::Advance { ms: 8000 });
+            steps.push(XStep::Heal);
+            steps.push(XStep::Advance { ms: 4000 });
+        }
+        for _ in 0..n {
+            let r = rng.below(100);
+            let gap = *rng.pick(&[0u64, 0, 5, 50, 300, 1500]);
+            let st = if r < 55 {
+                XStep::Pub { node: rng.range(1, 3), k: rng.below(4) as u8, gap_ms: gap }
+            } else if r < 62 {
+                XStep::Del { node: rng.range(1, 3), k: 2 + rng.below(2) as u8, gap_ms: gap }
+            } else if !faulty {
+                XStep::Advance { ms: *rng.pick(&[10u64, 500, 3000]) }
+            } else if r < 67 {
+                XStep::KillLeader
+            } else if r < 71 {
+                XStep::Kill { node: rng.range(1, 3) }
+            } else if r < 78 {
+                XStep::Start { node: rng.range(1, 3) }
+            } else if r < 82 {
+                XStep::IsolateLeader
+            } else if r < 85 {
+                XStep::Isolate { node: rng.range(1, 3) }
+            } else if r < 87 {
+                XStep::OneWay { from: rng.range(1, 3), to: rng.range(1, 3) }
+            } else if r < 92 {
+                XStep::Heal
+            } else if r < 95 {
+                XStep::Net { mode: rng.below(4) as u8 }
+            } else {
+                XStep::Advance { ms: *rng.pick(&[10u64, 500, 3000, 8000]) }
+            };
+            steps.push(st);
+        }
+        json!({"check": "C06", "seed": seed, "cfg": cfg, "steps": steps})
+    }
+    fn execute(&self, script: Value) -> LocalFut<ExecResult> {
+        Box::pin(exec_c06(script))
+    }
+}
